@@ -1,5 +1,5 @@
 import PfModel.DriverVal
-import PfModel.Lemmas.MapTotal
+import PfModel.Lemmas.MapRefusal
 /-! Driver for the "never refused" clause of C01 (`conforms`): evaluates `PF.C01.Conforms` — the predicate
     `C01_never_refused` is about — and `runMap` on the same request as `map.run`. -/
 open Lean PF PF.Drv PF.Map
@@ -33,11 +33,14 @@ def handle (m : String) (a : Json) : R Json := do
       ("rootArrays", PF.C01.rootArrays fs inputs),
       ("shapesOK", PF.C01.shapesOK (constructInternal fs internal) (generations fs).flatten (PF.C01.rootTbl fs inputs)),
       ("inputsTyped", PF.C01.valuesTyped Γ inputs), ("defaultsTyped", PF.C01.valuesTyped Γ (pdefaults fs)),
-      ("funcsTyped", fs.all (PF.C01.funcTyped Γ)), ("constructible", PF.C01.constructible Γ fs)]
+      ("funcsTyped", fs.all (PF.C01.funcTyped Γ)), ("constructible", PF.C01.constructible Γ fs),
+      ("consistentAxes", PF.C01.consistentAxes fs)]
     let (ok, err) := match runMap fs inputs internal with
       | .error e => (false, jStr (errName e))
       | .ok _ => (true, Json.null)
+    -- `Conforms = RequestOK && DescOK` (`C01_conforms_split`); `C01_answered_request_ok`: ok → requestOK
     return jObj [("conforms", jBool (PF.C01.Conforms fs inputs internal)), ("ok", jBool ok), ("err", err),
+                 ("requestOK", jBool (PF.C01.RequestOK fs inputs internal)), ("descOK", jBool (PF.C01.DescOK fs inputs internal)),
                  ("failed", jList jStr ((clauses.filter (!·.2)).map (·.1)))]
   | _ => .error s!"unknown entry {m}"
 
